@@ -802,11 +802,12 @@ def interval_join_replay(V, wd, tier):
     jobs, meta = [], {}
 
     def side(n):
-        ts = sorted(rng.randrange(0, 7) for _ in range(n))
+        # timestamps before the epoch included (finding F11: the operator used to assert on them)
+        ts = sorted(rng.randrange(-3, 5) for _ in range(n))
         return [[rng.randrange(1, 50), t] for t in ts]
 
     def script(items):
-        out, lastw = [], -1
+        out, lastw = [], -10
         for v, t in items:
             if t - 1 > lastw and rng.random() < 0.7:
                 out.append({"k": "W", "ts": t - 1})
@@ -900,6 +901,17 @@ def C08(V, tier):
     r = tlc_check(f"{SPEC}/comp/HashJoin.tla", f"{SPEC}/mc/HashJoin_seedC08.cfg", wdm, "seedC08", workers=2, coverage=False)
     V.coverage["HashJoin_seedC08_still_fails"] = r["invariant_violated"] == "NoExtra"
     sortmerge_model(V, wdm, tier)
+    # M: the interval join as coded (comp/IntervalJoin.tla) over every timestamp-ordered small input
+    cfg = "IntervalJoin_quick" if tier == "quick" else "IntervalJoin_thorough"
+    r = tlc_check(f"{SPEC}/comp/IntervalJoin.tla", f"{SPEC}/mc/{cfg}.cfg", wdm, cfg, workers=4, timeout=3000)
+    if not r["ok"]:
+        raise ToolError(f"model check {cfg}: {r['invariant_violated']} fails on the MODEL")
+    require_coverage(r, ["LeftItem", "RightItem", "Watermark", "Restart", "Close"], cfg)
+    V.add_model(r, cfg)
+    r = tlc_check(f"{SPEC}/comp/IntervalJoin.tla", f"{SPEC}/mc/IntervalJoin_seed.cfg", wdm, "ijseed", workers=2, coverage=False)
+    V.coverage["IntervalJoin_seed_still_fails"] = r["invariant_violated"] == "JoinOK"
+    r = tlc_check(f"{SPEC}/comp/IntervalJoin.tla", f"{SPEC}/mc/IntervalJoin_F11.cfg", wdm, "ijF11", workers=2, coverage=False)
+    V.coverage["IntervalJoin_F11_still_fails"] = r["invariant_violated"] == "NoPanic"
     binary_replay(V, workdir("C08r"), tier, "C08", JOIN_VARIANTS)
     interval_join_replay(V, workdir("C08i"), tier)
     rng = random.Random(seed() + 8)
